@@ -563,6 +563,8 @@ def external(mod, attr, I):
         if hasattr(_rx, attr) and isinstance(getattr(_rx, attr), int):
             return int(getattr(_rx, attr))
         return L.LazyUnknown(f'{mod}.{attr}')
+    if mod == 'collections' and attr == 'namedtuple':
+        return Builtin('namedtuple', _b_namedtuple)
     if mod == 'decimal':
         if attr == 'Decimal':
             return Builtin('Decimal', _b_Decimal)
@@ -651,6 +653,31 @@ def _rx_compile(I, a, k):
     return I.unknown('regex.compile of symbolic source')
 
 
+class NT(tuple):
+    """namedtuple instance"""
+    _fields = ()
+    _name = ''
+
+
+def _b_namedtuple(I, a, k):
+    name, fields = a[0], a[1]
+    if isinstance(fields, str):
+        fields = fields.replace(',', ' ').split()
+    fields = tuple(fields)
+
+    def ctor(I2, args, kwargs, _f=fields, _n=name):
+        vals = list(args)
+        for f in _f[len(vals):]:
+            if f not in kwargs:
+                raise PyExc('TypeError', f'missing {f}')
+            vals.append(kwargs[f])
+        t = NT(vals)
+        t._fields = _f
+        t._name = _n
+        return t
+    return Builtin(name, ctor)
+
+
 def enum_member(I, cls, name):
     return _L().NOTFOUND
 
@@ -680,6 +707,8 @@ def get_attribute(I, o, name):
     r = libdt.get_attribute(I, o, name)
     if r is not L.NOTFOUND:
         return r
+    if isinstance(o, NT) and name in o._fields:
+        return o[o._fields.index(name)]
     if isinstance(o, (str, list, dict, tuple, set)) or (isinstance(o, Sym)) or isinstance(o, (SSeq, SArr, SRecList, L.PyDecimal, L.ConcreteIter, CharList, L.SMap)):
         return BoundBuiltin(o, name)
     if isinstance(o, Builtin):
@@ -1053,7 +1082,7 @@ def dict_method(I, d, name, args, kwargs):
     if name == 'get':
         k = I.resolve(args[0])
         default = args[1] if len(args) > 1 else None
-        if not is_sym(k):
+        if not L.deep_sym(k) and not any(L.deep_sym(x) for x in d):
             return d.get(L.hashable(k), default)
         for key in d:
             e = L.eq_term(I, key, k)
